@@ -195,11 +195,11 @@ _REQ_INNER_TMPL = \
 '''
 def process_request({all_args}):
     __traceback_hide__ = True
-    context = endpoint({endpoint_args})
-    if isinstance(context, BaseResponse):
+    context = _clastic_endpoint({endpoint_args})
+    if isinstance(context, _clastic_BaseResponse):
         resp = context
     else:
-        resp = render({render_args})
+        resp = _clastic_render({render_args})
     return resp
 '''
 
@@ -217,6 +217,9 @@ def _create_request_inner(endpoint, render, all_args,
     code_str = _REQ_INNER_TMPL.format(all_args=all_args_str,
                                       endpoint_args=ep_args_str,
                                       render_args=rn_args_str)
-    env = {'endpoint': endpoint, 'render': render, 'BaseResponse': BaseResponse}
+    # prefixed: parameters of process_request (any injectable name) must not
+    # shadow what the generated code calls
+    env = {'_clastic_endpoint': endpoint, '_clastic_render': render,
+           '_clastic_BaseResponse': BaseResponse}
 
     return compile_code(code_str, name='process_request', env=env)
